@@ -31,6 +31,9 @@ CLAIMED = {
  'C09': ('PBT: exhaustive line-length x error-column sweep + hypothesis multi-line texts through generated grammars; validity predicate (independent line/column, caret and excerpt checks)',
          'Generated-input search: (i) complete sweep of line length 1..260 x every error column x preceding/following text shapes through three error paths (ParseError via sequence and via choice farthest-failure, PartialParseError); (ii) hypothesis core grammars (text with an ignore pattern for blanks/newlines, and bytes) on multi-line texts with lines up to 400 characters and pos >= 0. Each raised error is validated: index bounds, not beyond the foreign character, line/column recomputed, None/None iff ParseError at end of input, message numbers, two-line excerpt, caret under text[index], excerpt from the error line.',
          'Line breaks are \\n only; part (ii) grammars are lookbehind-free.'),
+ 'C10': ('PBT: hypothesis class-heavy grammars with ignore, multi-line inputs, pos > 0; spans recorded by the reference interpreter walked in parallel, independent line/column, containment',
+         'Generated-input search: rich grammars (generated classes, class templates, class recursion, classes under repetition/option/lookahead/choice/templates) and core grammars wrapped in classes (text and bytes), all with an ignore pattern for blanks and newlines, on token strings with blanks/newlines inserted everywhere, at pos 0 and behind a junk prefix; for every instance that consumed input start.index, end.index, line and column are compared with the span recorded by the reference (also in partial_result), plus type well-formedness (never a raw tuple) and child-inside-parent on sourcer\'s own data.',
+         'Offsets holding a line break are excepted from line/column (as in the statement); containment only without lookahead/Backtrack.'),
  'C14': ('PBT: hypothesis recursive result trees (shared nodes, containers, same-field classes, parsed trees with metadata); independent structural equality oracle, snapshots, round-trips',
          'Generated-input search over triples of result trees: ==/!= against an independent structural predicate (incl. classes with identical field names, dicts in different insertion order), symmetry, transitivity, hash consistency (also after _replace), _asdict order/identity, _replace (new object, only given fields, metadata kept, original untouched), deepcopy (equal, no shared mutable node, same metadata), pickle round trip for a named grammar, eval(repr).',
          'NaN excluded; fields not mutated after hashing; trees <= ~16 leaves.'),
